@@ -925,6 +925,19 @@ fn reference_self_test() -> Vec<String> {
 
 pub fn run(tier: Tier) -> i32 {
     let mut report = Report::new("C16", tier, "exploration");
+    // wire-level part: the engine family `limits` (the validators are really consulted before anything is sent)
+    let family_configs = crate::engine::families::build("limits", tier);
+    crate::engine::run::run_family_into(&mut report, "C16", "limits", family_configs, tier);
+    let family_exhaustive = report.coverage.get("exhaustive").and_then(|v| v.as_bool()).unwrap_or(false);
+    let family_samples = report.coverage.get("samples").cloned();
+    run_into(&mut report, tier);
+    let grid_exhaustive = report.coverage.get("exhaustive").and_then(|v| v.as_bool()).unwrap_or(false);
+    report.set("exhaustive", serde_json::json!(family_exhaustive && grid_exhaustive));
+    if let Some(s) = family_samples { report.set("engine_family_samples", s); }
+    report.finish()
+}
+
+fn run_into(report: &mut Report, tier: Tier) {
     report.machinery_errors.extend(reference_self_test());
     let known = KnownFindings::load();
     let env = Env::new();
@@ -1006,5 +1019,4 @@ pub fn run(tier: Tier) -> i32 {
     report.assume("a Server Reference in a client DISCONNECT conforms (no normative prohibition); user-set Subscription Identifiers on a PUBLISH violate [MQTT-3.3.4-6] (an explicitly empty list is not judged); DUP=1 on a new PUBLISH violates [MQTT-3.3.1-1]; zero-length topic name and response topic violate [MQTT-4.7.3-1]");
     report.assume("U+0000 and non-ASCII characters are outside the token alphabet: not run, not judged; topic alias values are only checked against 0 (alias maximum is C17, topic_alias_maximum_to_server fixed at 65535)");
     report.assume("static rules are judged 'rejected by send time' (either stage); the stage is recorded in rule_enforcement_stage");
-    report.finish()
 }
